@@ -297,6 +297,26 @@ func runX2(p *an.Prog, r *an.Result) {
 		for v, has := range typeSw {
 			report("type switch", v, has, typePos[v])
 		}
+		// CanInt alone is "a signed integer": a decision about integers made with it leaves the unsigned widths out
+		// unless the same value is also asked CanUint
+		an.EachInstr(fn, func(in ssa.Instruction) {
+			c, ok := in.(*ssa.Call)
+			if !ok || an.CallName(&c.Call) != "(reflect.Value).CanInt" || len(c.Call.Args) != 1 {
+				return
+			}
+			r.Counts["numeric dispatches"]++
+			hasU := false
+			an.EachInstr(fn, func(in2 ssa.Instruction) {
+				if c2, ok := in2.(*ssa.Call); ok && an.CallName(&c2.Call) == "(reflect.Value).CanUint" && len(c2.Call.Args) == 1 && (c2.Call.Args[0] == c.Call.Args[0] || sameRV(c2.Call.Args[0], c.Call.Args[0])) {
+					hasU = true
+				}
+			})
+			if hasU {
+				r.OK(name, "CanInt beside CanUint", c.Pos(), "")
+			} else {
+				r.Bad(name, "CanInt without CanUint", c.Pos(), fmt.Sprintf("%s asks a value whether it is a signed integer and never whether it is an unsigned one: uint8(65) takes the other path (and converts to \"A\" where int(65) gives \"65\")", an.FuncName(fn)))
+			}
+		})
 	}
 	r.Floor("numeric dispatches", 5)
 }
